@@ -777,11 +777,16 @@ def _resolve(selector, env, cnt):
             real_fn = _dig(fn.__func__)
             selfname = inspect.getfullargspec(real_fn).args[0]
             el = el.clone(name=real_fn)
+            # The receiver must *be* that instance: match by identity, so
+            # that equal but distinct instances are not confused and
+            # unhashable instances can be used.
             captures.append(
                 Element(
                     name=selfname,
                     capture=selfname,
-                    value=fn.__self__,
+                    value=MatchFunction(
+                        lambda obj, receiver=fn.__self__: obj is receiver
+                    ),
                 )
             )
         else:
